@@ -128,6 +128,7 @@ func snapshotCheck(prop string, mod func(*gridOpts), extraRule string) int {
 		c03ScaleInClause(rep)
 	case "C12":
 		c12CensusClause(rep)
+		c12EventDriven(rep)
 	case "C14":
 		c14ClaimsPhase(rep)
 	}
@@ -188,7 +189,7 @@ func init() {
 		return snapshotCheck("C07", nil, "Oracle: an update-delete at i needs RollingUpdate, i >= partition and every higher desired pod present, updated, Running, Ready; <=1 per reconcile; new pods carry the revision their ordinal calls for and that revision's template; none under OnDelete.")
 	})
 	register("c12", "status tells the truth (snapshot enumeration)", func([]string) int {
-		return snapshotCheck("C12", nil, "Plus the census clause on the search driver: at every fixed point (a reconcile that reports success and leaves the state as it is, so that nothing is scheduled to retry) reached from the C02 seeds and from seeds in which a pod the set cannot claim holds a desired name (thorough: after any single deviation) the counters equal a census of the live pods (total, ready, at current revision, at update revision); and a fault phase in which every status write is hit by a conflict (stale or refreshed cache), an InternalError or a lost response. Oracle on every status write: 0<=ready,current,updated<=replicas; observedGeneration = reconciled generation >= stored; currentRevision moves only to updateRevision and only when every claimed pod is updated and Ready.")
+		return snapshotCheck("C12", nil, "Plus the census clause on the search driver: at every fixed point (a reconcile that reports success and leaves the state as it is, so that nothing is scheduled to retry) reached from the C02 seeds and from seeds in which a pod the set cannot claim holds a desired name (thorough: after any single deviation) the counters equal a census of the live pods (total, ready, at current revision, at update revision); and a fault phase in which every status write is hit by a conflict (stale or refreshed cache), an InternalError or a lost response. An event-driven search (a reconcile runs only when the real handlers have put the key in the queue; watch events of pods and of the set delivered in any interleaving and arbitrarily late; two kubelet events) demands the census whenever the system is idle. Oracle on every status write: 0<=ready,current,updated<=replicas; observedGeneration = reconciled generation >= stored; currentRevision moves only to updateRevision and only when every claimed pod is updated and Ready.")
 	})
 	register("c14", "Parallel policy never waits (snapshot enumeration)", func([]string) int {
 		return snapshotCheck("C14", func(o *gridOpts) { o.Policies = []string{"Parallel"} }, "Plus a claims phase: sets with volume claim templates, per ordinal the pod absent/Ready/not Ready and its claims absent/present/being deleted. Oracle: a reconcile in which no request failed (a returned error that the controller made up itself is no excuse; a refused adoption on a stale cache is) creates every vacant desired ordinal and deletes every live pod outside the desired set; <=1 update delete.")
